@@ -16,9 +16,10 @@ from . import gen as G
 
 # ----------------------------------------------------------------------------- structure walking
 def clone(x, readonly=False):
-    """deep copy of an argument structure; every ndarray is a fresh C-contiguous buffer (optionally read-only)"""
+    """deep copy of an argument structure; every ndarray is a fresh buffer in the SAME memory layout (order='K': a Fortran-ordered or
+    transposed argument stays one, DESIGN.md 8.5), optionally read-only"""
     if isinstance(x, np.ndarray):
-        a = np.array(x, copy=True, order='C')
+        a = np.array(x, copy=True, order='K')
         if readonly:
             a.setflags(write=False)
         return a
@@ -1364,8 +1365,18 @@ TRAINERS = {'CWMMTrainer': _m_cwmm.CWMMTrainer, 'CBMMTrainer': _m_cbmm.CBMMTrain
 
 def g_trainer_fit(rng, kind, D, base=None):
     """one fit specification for trainer `kind` with feature dimension D (optionally the same data as `base`)"""
-    if base is not None and base['y'].shape[-1] == D and rng.random() < 0.5:
-        return clone(base)
+    if base is not None and base['y'].shape[-1] == D:
+        r = rng.random()
+        if r < 0.4:
+            return clone(base)
+        if r < 0.65:
+            # nearly, but not exactly, the statistics of an earlier fit (the same recording after a single-precision round
+            # trip, or a second take): whatever a trainer memoises must not be keyed by rounded statistics
+            b = clone(base)
+            y = b['y']
+            b['y'] = y.astype(np.complex64).astype(np.complex128) if rng.random() < 0.5 \
+                else y * (1 + 10.0 ** rng.uniform(-9, -6) * rng.standard_normal(y.shape))
+            return b
     if kind in ('CWMMTrainer', 'CBMMTrainer'):
         v = pick(rng, ['num_classes', 'affiliation', 'saliency', 'wca-3', 'wca-list', 'aligner', 'wca-2'])
         a = g_mm_fit(rng, v, D=D)
